@@ -222,3 +222,55 @@ def mono_minus_floor_fraction(T, n, var):
     if not arg.equals(A * kappa) or var in _all_atoms(T, kappa) or mp[0][0] in kappa.atoms():
         return None
     return mono(T, A, var)
+
+
+# ---------------------------------------------------------------------------------------
+# arithmetic base: the E-ROUND obligations of a property are proved over the reference summaries of the
+# bignumber operations; the summaries themselves are verified against math.rs by C08.  A property whose
+# formulas use an operation is only as good as that operation, so it imports C08's verdict for exactly the
+# operations its translators applied (and the bignumber functions those call).
+
+def _bignum_closure(P, paths):
+    seen = set()
+    todo = list(paths)
+    while todo:
+        p = todo.pop()
+        if p in seen:
+            continue
+        seen.add(p)
+        f = P.fn(p)
+        if f is None or f.body is None:
+            continue
+        for b, cp, fr, t in P.calls(f):
+            if cp:
+                g = P.fn(cp) or P.fn(generic_path(cp))
+                if g is not None and g.crate == "bignumber" and g.path not in seen:
+                    todo.append(g.path)
+    return seen
+
+
+def arith_base(ctx, iid):
+    """Instance `iid`: every bignumber operation used by this run's formulas conforms to its exact-or-abort summary (C08.S, C08.R1)."""
+    from .rules import c08
+    P = ctx.P
+    inst = ctx.inst(iid, "arithmetic base: the 256-bit operations these formulas use conform to their exact-or-abort reference summaries (shared with C08.S / C08.R1)", floor=1)
+    used = set()
+    for T in getattr(P, "_translators", [])[ctx._tr_mark:]:
+        used |= T.used_bignum
+    if not used:
+        inst.site("no bignumber operation is used by this property's formulas")
+        return inst
+    clo = _bignum_closure(P, used)
+    cache = getattr(P, "_c08_cache", None)
+    if cache is None:
+        sub = type(ctx)("C08", P)
+        sub.P_release = ctx.P_release
+        c08.run(sub)
+        cache = [(i.id, f) for i in sub.instances if i.id in ("C08.S", "C08.R1") for f in i.failures]
+        P._c08_cache = cache
+    for cid, f in cache:
+        if f["fn"] in clo or f["fn"] == "-":
+            inst.fail("%s:%s" % (iid, f["key"]), f["fn"], f["span"], "[%s] %s" % (cid, f["reason"]))
+    for u in sorted(used):
+        inst.site("uses %s (summary verified by C08.S)" % common.short_path(u))
+    return inst
